@@ -17,6 +17,8 @@ import Verif.Gen.JsMimetypes
 import Verif.Gen.ShortenColorHex
 import Verif.Gen.ShortenColorName
 import Verif.Gen.OptionalZeroDimension
+import Verif.Gen.ZeroAngleFuncs
+import Verif.Gen.AngleDimension
 import Verif.Gen.SvgColorAttrs
 import Verif.Gen.HashNames
 import Verif.Gen.Html5Entities
@@ -77,6 +79,8 @@ def dumps : List (String × Handler) := [
   ("dump.JsMimetypes", fun _ => .ok (names JsMimetypes.table)),
   ("dump.OptionalZeroDimension", fun _ => .ok (names OptionalZeroDimension.table)),
   ("dump.SvgColorAttrs", fun _ => .ok (names SvgColorAttrs.table)),
+  ("dump.ZeroAngleFuncs", fun _ => .ok (names ZeroAngleFuncs.table)),
+  ("dump.AngleDimension", fun _ => .ok (names AngleDimension.table)),
   ("dump.TagTraits", fun _ => .ok (traitRows TagTraits.table)),
   ("dump.AttrTraits", fun _ => .ok (traitRows AttrTraits.table)),
   ("dump.HashNames.html", fun _ => .ok (pairs HashNames.html)),
@@ -92,7 +96,7 @@ def classes : List (String × List Nat) := [
   ("rawJustified", rawTextElements ++ escapableRawTextElements ++ parserRawTextElements ++ foreignRoots),
   ("wsInsignificant", blockLevel ++ tableParts ++ lineBreak ++ notRendered ++ selectParts),
   ("jsMimeTypes", jsMimeTypes), ("svgColorAttrs", svgColorAttrs),
-  ("lengthUnits", lengthUnits), ("angleUnits", angleUnits)]
+  ("lengthUnits", lengthUnits), ("angleUnits", angleUnits), ("zeroAngleFunctions", zeroAngleFunctions)]
 
 def bads : List (String × Handler) := [
   ("bad.entitiesHtml", fun _ => .ok (names ((EntitiesHtml.table.filter (!entityRowOk ·)).map (·.1)))),
@@ -111,6 +115,10 @@ def bads : List (String × Handler) := [
   ("bad.blockTags", fun _ => .ok (names ((TagTraits.table.filter (!blockTagRowOk ·)).map (·.1)))),
   ("bad.jsMimetypes", fun _ => .ok (names (JsMimetypes.table.filter (!jsMimeTypes.contains ·)))),
   ("bad.zeroUnits", fun _ => .ok (names (OptionalZeroDimension.table.filter (!isLengthOrAngleUnit ·)))),
+  ("bad.zeroAngleFuncs", fun _ => .ok (names (ZeroAngleFuncs.table.filter (!zeroAngleFunctions.contains ·)))),
+  ("bad.angleDimension", fun _ => .ok (names (AngleDimension.table.filter (!angleUnits.contains ·)))),
+  ("bad.zeroAngleGuard", fun _ => .ok (names (OptionalZeroDimension.table.filter
+      (fun u => angleUnits.contains u && !AngleDimension.table.contains u)))),
   ("bad.svgColorAttrs", fun _ => .ok (names (SvgColorAttrs.table.filter (!svgColorAttrs.contains ·)))),
   ("bad.hashNames.html", fun _ => .ok (names ((HashNames.html.filter (!hashRowOk ·)).map (·.1)))),
   ("bad.hashNames.css", fun _ => .ok (names ((HashNames.css.filter (!hashRowOk ·)).map (·.1)))),
